@@ -74,6 +74,8 @@ type proofCase struct {
 	Drop     []string `json:"drop"`
 	Extra    string   `json:"extra"`
 	Partial  string   `json:"partial"`
+	KnownFull  string   `json:"knownfull"`
+	KnownAlter []string `json:"knownalter"`
 	Partial0 string   `json:"partial0"`
 }
 
@@ -322,6 +324,24 @@ func (r *runner) check(at string, s *step) {
 		}
 		e, c = guardedAdd(ver, key, h, part)
 		judge("the partial proof after key-1 was added", pc.Partial, e, c, "hexary:add:partial")
+		// non-first addition on ONE tree object that already knows (and caches) the shared upper nodes: the full proof
+		// with an element altered -- also an element the tree already knows -- must be rejected; the genuine one accepted
+		ver2 := r.verifier(hd)
+		if e, c := guardedAdd(ver2, key-1, r.w.item(int(key-1), pvv), prev); e != nil || c != "" {
+			r.viol("hexary:add:rejected", "%s: genuine proof of key %d rejected: %v %s", at, key-1, e, c)
+			return
+		}
+		for j := range proof {
+			if j < len(pc.KnownAlter) {
+				q := cp(proof)
+				q[j][(j*11+5)%len(q[j])] ^= 0x04
+				e, c = guardedAdd(ver2, key, h, q)
+				judge(fmt.Sprintf("a full proof with element %d altered, given to a tree that already added key %d", j, key-1),
+					pc.KnownAlter[j], e, c, "hexary:add:altered-known-element")
+			}
+		}
+		e, c = guardedAdd(ver2, key, h, proof)
+		judge("the full proof on a tree that already added key-1", pc.KnownFull, e, c, "hexary:add:known-full")
 		e, c = guardedAdd(r.verifier(hd), key, h, part)
 		judge("the partial proof on an empty verifier", pc.Partial0, e, c, "hexary:add:partial-unknown-prefix")
 	}
